@@ -121,10 +121,27 @@ package adapter
 //@   ensures idxOK(a) [C04.index.wellformed.leave.room]
 //@   ensures forall s SocketID :: forall r Room :: rmem(a, s, r) == (old(rmem(a, s, r)) && !(s == sid && r == room)) [C04.leave.room.index]
 //@   ensures forall s SocketID :: forall r Room :: mem(a, s, r) == old(mem(a, s, r)) [C04.leave.room.frame]
+// The exclusion set of a broadcast: exactly the sockets that are in some excluded room (nested Set.Each: the outer
+// iterator rule runs over the excluded rooms, the inner one - in the callback - over the members of one room).
 //@ func (*inMemoryAdapter).computeExceptSids
 //@   holds a.mu
+//@   opt safety off
+//@   requires a != nil && idxOK(a) && exceptRooms != nil && salloc(exceptRooms)
+//@   modifies *
+//@   each 0 invariant idxOK(a) && exceptSids != nil && salloc(exceptSids) && !was(salloc(exceptSids)) [C04.except.inv.fresh]
+//@   each 0 invariant forall r Room :: (r in a.rooms) ==> was(salloc(a.rooms[r])) [C04.except.inv.old.sets]
+//@   each 0 invariant forall s SocketID :: forall r Room :: rmem(a, s, r) == old(rmem(a, s, r)) [C04.except.inv.readonly]
+//@   each 0 invariant forall s SocketID :: smem(exceptSids, s) == (exists r Room :: visited(r) && rmem(a, s, r)) [C04.except.inv.collects]
+//@   ensures exceptSids != nil && salloc(exceptSids) && !was(salloc(exceptSids)) [C04.except.fresh]
+//@   ensures forall s SocketID :: forall r Room :: rmem(a, s, r) == old(rmem(a, s, r)) [C04.except.readonly]
+//@   ensures forall s SocketID :: forall r Room :: old(smem(exceptRooms, r)) && old(rmem(a, s, r)) ==> smem(exceptSids, s) [C04.except.complete]
+//@   ensures forall s SocketID :: smem(exceptSids, s) ==> (exists r Room :: old(smem(exceptRooms, r)) && old(rmem(a, s, r))) [C04.except.sound]
 //@ func (*inMemoryAdapter).computeExceptSids$1
 //@   holds a.mu
+//@   each 0 invariant idxOK(a) && exceptSids != nil && exceptSids == old(exceptSids) && salloc(exceptSids) && (forall q Room :: (q in a.rooms) ==> a.rooms[q] != exceptSids) [C04.except.room.inv.sets]
+//@   each 0 invariant a.rooms == old(a.rooms) && (forall q Room :: ((q in a.rooms) == old(q in a.rooms)) && a.rooms[q] == old(a.rooms[q])) [C04.except.room.inv.index]
+//@   each 0 invariant forall s SocketID :: forall q Room :: rmem(a, s, q) == old(rmem(a, s, q)) [C04.except.room.inv.readonly]
+//@   each 0 invariant forall s SocketID :: smem(exceptSids, s) == (old(smem(exceptSids, s)) || visited(s)) [C04.except.room.inv.collects]
 //@ func (*inMemoryAdapter).DeleteAll$1
 //@   holds a.mu
 //@ func (*inMemoryAdapter).apply$1
@@ -175,6 +192,100 @@ package adapter
 //@     requires len(arg1) == len(_v) + 1 && unbox(arg1[0], string) == eventName && (forall k int :: 0 <= k && k < len(_v) ==> arg1[k+1] == old(_v[k])) [C01.broadcast.args.in.order]
 //@     update sent = sent + 1
 //@   ensures sent <= 1 [C04.emit.once]
+
+// The bulk operations of an operator (join / leave / disconnect / fetch) hand the adapter exactly the operator's own
+// selection - copies of its target and except sets, nothing added, nothing dropped - and the caller's room list.
+//@ func (*BroadcastOperator).SocketsJoin
+//@   opt safety off
+//@   requires b != nil && b.rooms != nil && b.exceptRooms != nil && salloc(b.rooms) && salloc(b.exceptRooms)
+//@   callsite Adapter.AddSockets
+//@     requires arg0 != nil && arg0.Rooms != nil && (forall y string :: smem(arg0.Rooms, y) == old(smem(b.rooms, y))) [C04.socketsjoin.targets]
+//@     requires arg0.Except != nil && (forall y string :: smem(arg0.Except, y) == old(smem(b.exceptRooms, y))) [C04.socketsjoin.exclusions]
+//@     requires arg0.Rooms != b.rooms && arg0.Except != b.exceptRooms && arg0.Flags == b.flags && arg1 == old(room) [C04.socketsjoin.copies]
+//@ func (*BroadcastOperator).SocketsLeave
+//@   opt safety off
+//@   requires b != nil && b.rooms != nil && b.exceptRooms != nil && salloc(b.rooms) && salloc(b.exceptRooms)
+//@   callsite Adapter.DelSockets
+//@     requires arg0 != nil && arg0.Rooms != nil && (forall y string :: smem(arg0.Rooms, y) == old(smem(b.rooms, y))) [C04.socketsleave.targets]
+//@     requires arg0.Except != nil && (forall y string :: smem(arg0.Except, y) == old(smem(b.exceptRooms, y))) [C04.socketsleave.exclusions]
+//@     requires arg0.Rooms != b.rooms && arg0.Except != b.exceptRooms && arg0.Flags == b.flags && arg1 == old(room) [C04.socketsleave.copies]
+//@ func (*BroadcastOperator).DisconnectSockets
+//@   opt safety off
+//@   requires b != nil && b.rooms != nil && b.exceptRooms != nil && salloc(b.rooms) && salloc(b.exceptRooms)
+//@   callsite Adapter.DisconnectSockets
+//@     requires arg0 != nil && arg0.Rooms != nil && (forall y string :: smem(arg0.Rooms, y) == old(smem(b.rooms, y))) [C04.disconnectsockets.targets]
+//@     requires arg0.Except != nil && (forall y string :: smem(arg0.Except, y) == old(smem(b.exceptRooms, y))) [C04.disconnectsockets.exclusions]
+//@     requires arg0.Rooms != b.rooms && arg0.Except != b.exceptRooms && arg0.Flags == b.flags && arg1 == old(close) [C04.disconnectsockets.copies]
+//@ func (*BroadcastOperator).FetchSockets
+//@   opt safety off
+//@   requires b != nil && b.rooms != nil && b.exceptRooms != nil && salloc(b.rooms) && salloc(b.exceptRooms)
+//@   callsite Adapter.FetchSockets
+//@     requires arg0 != nil && arg0.Rooms != nil && (forall y string :: smem(arg0.Rooms, y) == old(smem(b.rooms, y))) [C04.fetchsockets.targets]
+//@     requires arg0.Except != nil && (forall y string :: smem(arg0.Except, y) == old(smem(b.exceptRooms, y))) [C04.fetchsockets.exclusions]
+//@     requires arg0.Rooms != b.rooms && arg0.Except != b.exceptRooms && arg0.Flags == b.flags [C04.fetchsockets.copies]
+
+// Every operation of the in-memory adapter that acts on "the selected sockets" walks the caller's own selection
+// through apply exactly once and acts on nothing else: no delivery outside that walk (a shortcut that picks a
+// recipient from a room's NAME instead of its membership is a delivery outside the walk), and the callback acts on
+// exactly the socket it was handed, with the caller's arguments.
+//@ func (*inMemoryAdapter).Broadcast
+//@   opt safety off
+//@   requires a != nil
+//@   panics_if true       // an encoding error is reported by panicking (recovered by the emitting socket)
+//@   ghost walks int = 0
+//@   callsite (*inMemoryAdapter).apply skip
+//@     requires arg0 == opts [C04.broadcast.walks.the.callers.selection]
+//@     update walks = walks + 1
+//@   callsite SocketStore.SendBuffers
+//@     requires false [C04.broadcast.no.delivery.outside.the.walk]
+//@   ensures walks == 1 [C04.broadcast.one.walk]
+//@ func (*inMemoryAdapter).Broadcast$1
+//@   opt safety off
+//@   ghost gid string = ""
+//@   ghost sends int = 0
+//@   callsite Socket.ID
+//@     requires recv == socket
+//@     updateafter gid = result
+//@   callsite SocketStore.SendBuffers
+//@     requires arg0 == gid && arg1 == buffers && sends == 0 [C04.broadcast.callback.sends.to.the.selected.socket]
+//@     update sends = sends + 1
+//@   ensures sends == 1 [C04.broadcast.callback.sends.once]
+//@ func (*inMemoryAdapter).AddSockets
+//@   opt safety off
+//@   ghost walks int = 0
+//@   callsite (*inMemoryAdapter).apply skip
+//@     requires arg0 == opts [C04.addsockets.walks.the.callers.selection]
+//@     update walks = walks + 1
+//@   ensures walks == 1 [C04.addsockets.one.walk]
+//@ func (*inMemoryAdapter).AddSockets$1
+//@   opt safety off
+//@   callsite Socket.Join
+//@     requires recv == socket && arg0 == rooms [C04.addsockets.callback.joins.the.given.rooms]
+//@ func (*inMemoryAdapter).DelSockets
+//@   opt safety off
+//@   ghost walks int = 0
+//@   callsite (*inMemoryAdapter).apply skip
+//@     requires arg0 == opts [C04.delsockets.walks.the.callers.selection]
+//@     update walks = walks + 1
+//@   ensures walks == 1 [C04.delsockets.one.walk]
+//@ func (*inMemoryAdapter).DisconnectSockets
+//@   opt safety off
+//@   ghost walks int = 0
+//@   callsite (*inMemoryAdapter).apply skip
+//@     requires arg0 == opts [C04.disconnectsockets.walks.the.callers.selection]
+//@     update walks = walks + 1
+//@   ensures walks == 1 [C04.disconnectsockets.one.walk]
+//@ func (*inMemoryAdapter).DisconnectSockets$1
+//@   opt safety off
+//@   callsite Socket.Disconnect
+//@     requires recv == socket && arg0 == close [C04.disconnectsockets.callback]
+//@ func (*inMemoryAdapter).FetchSockets
+//@   opt safety off
+//@   ghost walks int = 0
+//@   callsite (*inMemoryAdapter).apply skip
+//@     requires arg0 == opts [C04.fetchsockets.walks.the.callers.selection]
+//@     update walks = walks + 1
+//@   ensures walks == 1 [C04.fetchsockets.one.walk]
 
 // The two indexes (room -> sockets, socket -> rooms) of the in-memory adapter: every entry is a set of its own (no
 // two entries share a set object) and the indexes are mutually inverse. Whether empty room sets are kept or dropped
